@@ -1000,6 +1000,11 @@ where
             }
         }
 
+        // jobs still waiting in a worker's own queue will never be dispatched either
+        for worker_props in state.pool.values_mut() {
+            worker_props.discard_queued_jobs(DiscardReason::Shutdown);
+        }
+
         // cleanup the pool and wait for it to exit
         for worker_props in state.pool.values() {
             worker_props.actor.stop(None);
